@@ -341,6 +341,9 @@ class Run(object):
                 self.call(e, 'cdata', op[1] + 1)
         elif name == 'selfreplace':
             self.op_selfreplace(op[1])
+        elif name == 'ephemeral':
+            if not gremlin:
+                self.op_ephemeral(op[1])
         elif name == 'deldrop':
             self.op_deldrop(op[1], op[2] if len(op) > 2 else 0)
         elif name == 'clone':
@@ -455,6 +458,62 @@ class Run(object):
         if got != -11:
             raise Violation('C29.2', 'a callback that raised returned %d, its own error value is -11' % got)
 
+    def guarded_callback(self, ffi, sig, fn, **kw):
+        """ffi.callback() that may be hit by the injected mmap failure: returns None then"""
+        before_fail = self.check.shim_mmap_failed()
+        try:
+            return ffi.callback(sig, fn, **kw)
+        except MemoryError:
+            if self.check.shim_mmap_failed() > before_fail:
+                self.out.fault('mmap_failed_MemoryError')
+                return None
+            raise Violation('C29.2', 'ffi.callback() raised MemoryError although no mmap failure was injected')
+
+    def op_ephemeral(self, r):
+        """callbacks made through throw-away FFI objects: the function ctype (and the libffi call
+        description inside it) dies with them; the next callback has another signature with the same
+        number of arguments, now floating-point ones"""
+        n = 2 + r % 3
+        st = {'got': None}
+
+        def fi(*a):
+            st['got'] = a
+            return 7
+
+        def fd(*a):
+            st['got'] = a
+            return 0.25
+        f1 = self.check.cffi.FFI()
+        cb = self.guarded_callback(f1, 'short(*)(%s)' % ', '.join(['short'] * n), fi)
+        if cb is None:
+            return
+        addr = int(f1.cast('uintptr_t', cb))
+        if addr in self.addrs:
+            raise Violation('C29.1', 'new callback got address %#x which still belongs to a live callback' % addr)
+        args = tuple(range(1, n + 1))
+        if cb(*args) != 7 or st['got'] != args:
+            raise Violation('C29.2', 'a callback of signature short(*)(%d x short) received %r' % (n, st['got']))
+        del cb, f1
+        gc.collect()
+        f2 = self.check.cffi.FFI()
+        cb2 = self.guarded_callback(f2, 'double(*)(%s)' % ', '.join(['double'] * n), fd)
+        if cb2 is None:
+            return
+        addr = int(f2.cast('uintptr_t', cb2))
+        if addr in self.addrs:
+            raise Violation('C29.1', 'new callback got address %#x which still belongs to a live callback' % addr)
+        dargs = tuple(0.5 + i for i in range(n))
+        st['got'] = None
+        res = cb2(*dargs)
+        if st['got'] != dargs or res != 0.25:
+            raise Violation('C29.2', 'a callback of signature double(*)(%d x double), created after a callback of '
+                            'another signature and its function type had been freed, received %r and returned %r '
+                            '(called with %r, its function returns 0.25)' % (n, st['got'], res, dargs))
+        del cb2, f2
+        gc.collect()
+        self.out.probe('callback_after_its_predecessors_function_type_was_freed')
+        self.call_sample(20)
+
     def op_deldrop(self, n, collect=0):
         """a callback whose Python function owns an object with __del__ that creates callbacks: they are
         created in the middle of the deallocation of the first one.  With `collect`, that __del__ also runs
@@ -564,6 +623,7 @@ class C29(core.Check):
         sys.path.insert(0, self.hdir)
         import cffi, _cffi_backend, _verif_c29
         self.mod = _verif_c29
+        self.cffi = cffi
         self.iffi = cffi.FFI()
         self.total_calls = [0]
         self.shim = ctypes.PyDLL(_cffi_backend.__file__)
@@ -588,7 +648,7 @@ class C29(core.Check):
             ops.append(['bulkdrop', rng.u64(), 0.5])
             ops.append(['bulk', 14000, rng.choice(SIGNAMES), 'module'])
         for _ in range(rng.randint(5, 80)):
-            name = rng.weighted([('create', 25), ('clone', 5), ('badarg', 3), ('selfreplace', 2), ('deldrop', 2), ('call', 20), ('drop', 18), ('bulk', 4), ('bulkdrop', 4),
+            name = rng.weighted([('create', 25), ('clone', 5), ('badarg', 3), ('selfreplace', 2), ('deldrop', 2), ('ephemeral', 2), ('call', 20), ('drop', 18), ('bulk', 4), ('bulkdrop', 4),
                                  ('failcreate', 4), ('mmapfail', 2), ('collect', 6), ('gremlin', 2)])
             if name == 'create':
                 ops.append(['create', rng.choice(SIGNAMES), rng.choice(['module', 'inline']),
@@ -597,6 +657,8 @@ class C29(core.Check):
                 ops.append(['call', rng.below(100000), rng.choice(['C', 'cdata']), rng.below(100000)])
             elif name in ('drop', 'clone', 'badarg', 'selfreplace'):
                 ops.append([name, rng.below(100000)])
+            elif name == 'ephemeral':
+                ops.append(['ephemeral', rng.below(1000)])
             elif name == 'deldrop':
                 ops.append(['deldrop', rng.randint(0, 4), rng.below(4)])
             elif name == 'bulk':
